@@ -1,6 +1,6 @@
 SPECIFICATION Spec
 CONSTANTS
-  Impl = "asis"
+  Impl = "fixed"
   VarTexts <- MCVarTexts
   GlobTexts <- MCGlobTexts
   Universe <- MCUniverse
@@ -9,7 +9,7 @@ CONSTANTS
   MaxRoutes = 2
   ELits = {"a"}
   PLits = {"a", "b"}
-  Depth = 1
-  PathDepth = 1
-INVARIANTS Det
+  Depth = 3
+  PathDepth = 4
+INVARIANTS Det MostSpecific OutcomesExact
 CHECK_DEADLOCK FALSE
